@@ -314,6 +314,25 @@ def check(recipe) -> list[Fail]:
             sub.coords = newc
             for j, i in enumerate(idx):
                 model.coord[id(model.atoms[i])] = newc[j]
+            # the view object is kept by its owner and used again later, after other edits (view_reuse)
+            views = getattr(model, "views", [])
+            views.append((sub, [model.atoms[i] for i in idx]))
+            model.views = views[-3:]
+        elif name == "view_reuse":
+            views = [(v_, at) for (v_, at) in getattr(model, "views", []) if all(any(a is y for y in model.atoms) for a in at)]
+            model.views = views      # a view that lost one of its atoms is dropped by its owner
+            if not views:
+                continue
+            v_, at = views[op[1] % len(views)]
+            want = [model.coord[id(a)] for a in at]
+            got = np.asarray(v_.coords, dtype=float)
+            for j, w in enumerate(want):
+                if w is not None and not np.array_equal(got[j], np.asarray(w, dtype=float), equal_nan=True):
+                    return [Fail("kept-substructure-view-reads-other-atoms-rows", f"step {step}: view atom {j} reads {got[j]}, its atom holds {w}")]
+            newc = np.array([[op[2] - i, op[2] + 2 * i, 0.25 * i] for i in range(len(at))], dtype=float)
+            v_.coords = newc
+            for j, a in enumerate(at):
+                model.coord[id(a)] = newc[j]
         else:
             raise HarnessError(f"unknown op {name}")
         fails = invariants(mol, model, step, name)
@@ -351,6 +370,7 @@ def _ops(maxlen):
         st.tuples(st.just("remove_substituent"), _i, st.booleans()).map(list),
         st.just(["add_implicit_hydrogens"]),
         st.tuples(st.just("sub_write"), st.lists(_i, min_size=1, max_size=4), st.floats(-3, 3, width=32)).map(list),
+        st.tuples(st.just("view_reuse"), _i, st.floats(-3, 3, width=32)).map(list),
         st.tuples(st.just("sub_del_bond"), st.lists(_i, min_size=2, max_size=5), _i).map(list),
     )
     return st.lists(op, min_size=1, max_size=maxlen)
@@ -383,7 +403,7 @@ _ALPHA = [
     ["connect", 1, 2, 1], ["append_bond", 0, 2, 2], ["append_bond_foreign", 0, 3, True], ["append_bonds_foreign", 1, 0, False], ["extend_bonds_foreign", 2, 1, True],
     ["append_bond_readopt", 0, 0, True], ["append_bond_steal", 1, 1, False],
     ["sub_del_bond", [0, 1, 2], 0],
-    ["del_bond", 0], ["remove_substituent", 0, True], ["remove_substituent", 0, False], ["add_implicit_hydrogens"], ["sub_write", [0, 2], 1.5],
+    ["del_bond", 0], ["remove_substituent", 0, True], ["remove_substituent", 0, False], ["add_implicit_hydrogens"], ["sub_write", [0, 2], 1.5], ["view_reuse", 0, 0.5],
 ]
 
 
@@ -402,7 +422,7 @@ def enum_short(tier, shard, nshards):
 _NT = "non-trivial = a deletion after an insertion, or a foreign-atom append_bond(s)/extend_bonds, or deletion by label/element; distinct = recipe hash"
 LEGS = [
     Leg("hist", check, classify, strategy=strat, n={"quick": 4000, "thorough": 40000}, shards={"quick": 16, "thorough": 32},
-        rule="Hypothesis-generated edit histories (<=40 ops over add_atom / new_atom / del_atom by object|index|label|Element / connect / append_bond(s) / extend_bonds incl. foreign atoms / del_bond / remove_substituent / add_implicit_hydrogens / substructure write) on Molecule and Structure, started from empty, generated, cloned and bundled-mol2 molecules; " + _NT),
+        rule="Hypothesis-generated edit histories (<=40 ops over add_atom / new_atom / del_atom by object|index|label|Element / connect / append_bond(s) / extend_bonds incl. foreign atoms / del_bond / remove_substituent / add_implicit_hydrogens / substructure write / re-use of a kept substructure view after later edits) on Molecule and Structure, started from empty, generated, cloned and bundled-mol2 molecules; " + _NT),
     Leg("short", check, classify, enumerate=enum_short, exhaustive=True, shards={"quick": 16, "thorough": 64},
         rule="ALL op sequences of length <=3 (quick) / <=4 (thorough) over an 21-letter op alphabet from a 3-atom start x {Molecule, Structure} x {built, cloned}; " + _NT),
 ]
